@@ -355,6 +355,367 @@ Lemma rewind_snapshot_error f ck e :
   map_res (save_one f) (map fst ck) = Err e -> rewind f ck = (f, Some e).
 Proof. unfold rewind. intros ->. reflexivity. Qed.
 
+
+(* ====================================================================================== *)
+(* a rewind that fails leaves every file of the workspace as it was                        *)
+(* ====================================================================================== *)
+Definition strict_prefix (r k : path) : Prop := exists suf, k = r ++ suf /\ r <> [] /\ suf <> [].
+Definition dirmono (f g : fs) : Prop := forall r, lookup f r = Some Dir -> lookup g r = Some Dir.
+
+Lemma dirs_ok_prefix f : forall pre cur suf, dirs_ok f cur (pre ++ suf) = None -> pre <> [] -> dirs_ok f cur pre = None.
+Proof.
+  induction pre as [|c pre IH]; intros cur suf H Hne; [congruence|].
+  destruct pre as [|c2 pre'].
+  - cbn [app] in H. destruct suf as [|s suf'].
+    + exact H.
+    + change (dirs_ok f cur (c :: s :: suf')) with
+        (if 255 <? nlen c then Some ENAMETOOLONG else
+         match lookup f (cur ++ [c]) with
+         | Some Dir => dirs_ok f (cur ++ [c]) (s :: suf') | Some (File _) => Some ENOTDIR | None => Some ENOENT end) in H.
+      cbn [dirs_ok]. destruct (255 <? nlen c); [discriminate|reflexivity].
+  - change ((c :: c2 :: pre') ++ suf) with (c :: c2 :: (pre' ++ suf)) in H.
+    change (dirs_ok f cur (c :: c2 :: (pre' ++ suf))) with
+      (if 255 <? nlen c then Some ENAMETOOLONG else
+       match lookup f (cur ++ [c]) with
+       | Some Dir => dirs_ok f (cur ++ [c]) (c2 :: (pre' ++ suf)) | Some (File _) => Some ENOTDIR | None => Some ENOENT end) in H.
+    change (dirs_ok f cur (c :: c2 :: pre')) with
+      (if 255 <? nlen c then Some ENAMETOOLONG else
+       match lookup f (cur ++ [c]) with
+       | Some Dir => dirs_ok f (cur ++ [c]) (c2 :: pre') | Some (File _) => Some ENOTDIR | None => Some ENOENT end).
+    destruct (255 <? nlen c); [discriminate|].
+    destruct (lookup f (cur ++ [c])) as [[b|]|]; try discriminate.
+    apply (IH (cur ++ [c]) suf); [exact H|discriminate].
+Qed.
+
+(* where mkdir_all creates directories *)
+Lemma mkdir_all_where : forall cs f cur f' er, mkdir_all f cur cs = (f', er) ->
+  forall r, lookup f' r = lookup f r
+            \/ (lookup f r = None /\ lookup f' r = Some Dir /\ exists pre suf, cs = pre ++ suf /\ pre <> [] /\ r = cur ++ pre).
+Proof.
+  induction cs as [|c cs IH]; intros f cur f' er H r; cbn [mkdir_all] in H.
+  - inversion H; left; reflexivity.
+  - destruct (255 <? nlen c); [inversion H; left; reflexivity|].
+    destruct (lookup f (cur ++ [c])) as [[b|]|] eqn:L.
+    + inversion H; left; reflexivity.
+    + destruct (IH _ _ _ _ H r) as [E|(E1 & E2 & pre & suf & Ec & Hp & Er)]; [left; exact E|].
+      right. split; [exact E1|]. split; [exact E2|]. exists (c :: pre), suf. split; [cbn [app]; rewrite Ec; reflexivity|].
+      split; [discriminate|]. rewrite Er, <- app_assoc. reflexivity.
+    + destruct (path_dec (cur ++ [c]) r) as [Er|Er].
+      * subst r. right. split; [exact L|]. split.
+        -- destruct (IH _ _ _ _ H (cur ++ [c])) as [E|(E1 & _)].
+           ++ rewrite E. apply lookup_set_same. apply app_one_ne_nil.
+           ++ rewrite lookup_set_same in E1 by apply app_one_ne_nil. discriminate.
+        -- exists [c], cs. split; [reflexivity|]. split; [discriminate|reflexivity].
+      * destruct (IH _ _ _ _ H r) as [E|(E1 & E2 & pre & suf & Ec & Hp & Err)].
+        -- left. rewrite E. apply lookup_set_other; exact Er.
+        -- right. rewrite lookup_set_other in E1 by exact Er. split; [exact E1|]. split; [exact E2|].
+           exists (c :: pre), suf. split; [cbn [app]; rewrite Ec; reflexivity|]. split; [discriminate|].
+           rewrite Err, <- app_assoc. reflexivity.
+Qed.
+
+Lemma removelast_strict (k : path) pre suf : removelast k = pre ++ suf -> pre <> [] -> strict_prefix pre k.
+Proof.
+  intros E Hp. destruct k as [|c k]; [cbn in E; symmetry in E; apply app_eq_nil in E; destruct E; congruence|].
+  assert (Hk : c :: k <> []) by discriminate.
+  exists (suf ++ [last (c :: k) []]). split; [|split; [exact Hp|apply app_one_ne_nil]].
+  rewrite app_assoc, <- E. apply app_removelast_last. exact Hk.
+Qed.
+
+Section Restore.
+  Variable f2 : fs.
+  Variable K : path -> Prop.
+  Hypothesis sane2 : sane f2.
+
+  Record Good (g : fs) : Prop := {
+    g_sane : sane g;
+    g_mono : dirmono f2 g;
+    g_nodir : forall k, K k -> lookup g k = Some Dir -> lookup f2 k = Some Dir;
+    g_out : forall q, ~ K q -> file_at g q = file_at f2 q
+  }.
+
+  (* creating the parents of k never turns a covered path into a directory *)
+  Definition safe_parents (k : path) : Prop := forall r, strict_prefix r k -> K r -> lookup f2 r = Some Dir.
+
+  Lemma good_init : Good f2.
+  Proof. constructor; [exact sane2|intros r H; exact H|intros k _ H; exact H|reflexivity]. Qed.
+
+  Lemma good_mkdir g k g1 er : Good g -> safe_parents k -> mkdir_all g [] (removelast k) = (g1, er) -> Good g1.
+  Proof.
+    intros G Hs H. constructor.
+    - eapply sane_mkdir; [exact H|apply G].
+    - intros r Hr. pose proof (g_mono _ G r Hr) as Hg.
+      destruct (mkdir_all_lookup _ _ _ _ _ H r) as [E|[E1 _]]; [rewrite E; exact Hg|rewrite Hg in E1; discriminate].
+    - intros k' Hk' Hd. destruct (mkdir_all_where _ _ _ _ _ H k') as [E|(E1 & E2 & pre & suf & Ec & Hp & Er)].
+      + rewrite E in Hd. apply (g_nodir _ G); assumption.
+      + cbn [app] in Er. subst k'. apply Hs; [eapply removelast_strict; eassumption|exact Hk'].
+    - intros q Hq. rewrite (mkdir_all_file_at _ _ _ _ _ q H). apply (g_out _ G); exact Hq.
+  Qed.
+
+  Lemma good_set g k b : Good g -> K k -> dirs_ok g [] k = None -> lookup g k <> Some Dir -> Good (set g k (File b)).
+  Proof.
+    intros G Hk Hd Hn. constructor.
+    - apply sane_set; [apply G|exact Hd|exact Hn].
+    - intros r Hr. pose proof (g_mono _ G r Hr) as Hg. rewrite lookup_set_other; [exact Hg|]. intros ->. contradiction.
+    - intros k' Hk' Hd'. destruct (path_dec k k') as [E|E].
+      + subst k'. rewrite lookup_set_same in Hd' by (eapply not_dir_ne_nil; exact Hn). discriminate.
+      + rewrite lookup_set_other in Hd' by exact E. apply (g_nodir _ G); assumption.
+    - intros q Hq. rewrite file_at_set_other by (intros ->; contradiction). apply (g_out _ G); exact Hq.
+  Qed.
+
+  Lemma good_unset g k b0 : Good g -> K k -> lookup g k = Some (File b0) -> Good (unset g k).
+  Proof.
+    intros G Hk L. constructor.
+    - eapply sane_unset; [apply G|exact L].
+    - intros r Hr. pose proof (g_mono _ G r Hr) as Hg. rewrite lookup_unset_other; [exact Hg|]. intros ->. rewrite L in Hg. discriminate.
+    - intros k' Hk' Hd'. destruct (path_dec k k') as [E|E].
+      + subst k'. rewrite lookup_unset_same in Hd' by (intros E0; rewrite E0 in L; discriminate). discriminate.
+      + rewrite lookup_unset_other in Hd' by exact E. apply (g_nodir _ G); assumption.
+    - intros q Hq. rewrite file_at_unset_other by (intros ->; contradiction). apply (g_out _ G); exact Hq.
+  Qed.
+
+  Lemma good_parents g rel g1 er : Good g -> safe_parents (key rel) -> mk_parent_dirs g (tgt_of rel) = (g1, er) -> Good g1.
+  Proof.
+    intros G Hs H. unfold mk_parent_dirs in H. cbn [tgt_of t_nul t_base t_comps] in H.
+    match type of H with (if ?c then _ else _) = _ => destruct c end.
+    - inversion H; subst g1; exact G.
+    - eapply good_mkdir; [exact G|exact Hs|exact H].
+  Qed.
+
+  (* one step of the restore loop, successful or not *)
+  Lemma good_apply_one g e g' er : Good g -> K (key (fst e)) ->
+    (forall b, snd e = Some b -> safe_parents (key (fst e))) -> apply_one g e = (g', er) -> Good g'.
+  Proof.
+    destruct e as [rel saved]. cbn [fst snd]. intros G Hk Hs H. unfold apply_one in H. cbn [fst snd] in H.
+    destruct saved as [b|].
+    - destruct (mk_parent_dirs g (tgt_of rel)) as [g1 e1] eqn:Em.
+      pose proof (good_parents _ _ _ _ G (Hs b eq_refl) Em) as G1.
+      destruct e1 as [x|]; [inversion H; subst g'; exact G1|].
+      destruct (os_write g1 (tgt_of rel) b) as [g2|x] eqn:Ew; inversion H; subst g'; [|exact G1].
+      destruct (os_write_ok _ _ _ _ Ew) as (E2 & Hpre & Hnd).
+      cbn [tgt_of t_path t_base t_comps app] in E2, Hnd. change (real_segs rel) with (key rel) in E2, Hnd.
+      unfold pre_err in Hpre. cbn [tgt_of t_nul t_base t_comps] in Hpre. change (real_segs rel) with (key rel) in Hpre.
+      subst g2. apply good_set; assumption.
+    - destruct (os_exists g (tgt_of rel)).
+      + destruct (os_remove_file g (tgt_of rel)) as [g2|x] eqn:Er; inversion H; subst g'; [|exact G].
+        destruct (os_remove_ok _ _ _ Er) as (E2 & b0 & Lk).
+        cbn [tgt_of t_path t_base t_comps app] in E2, Lk. change (real_segs rel) with (key rel) in E2, Lk.
+        subst g2. eapply good_unset; eassumption.
+      + inversion H; subst g'; exact G.
+  Qed.
+
+  Lemma good_apply_all : forall ck g g' er, Good g ->
+    (forall e, In e ck -> K (key (fst e)) /\ (forall b, snd e = Some b -> safe_parents (key (fst e)))) ->
+    apply_all g ck = (g', er) -> Good g'.
+  Proof.
+    induction ck as [|e r IH]; intros g g' er G Hall H; cbn [apply_all] in H.
+    - inversion H; subst g'; exact G.
+    - destruct (apply_one g e) as [g1 e1] eqn:E1.
+      destruct (Hall e (or_introl eq_refl)) as [Hk Hs].
+      pose proof (good_apply_one _ _ _ _ G Hk Hs E1) as G1.
+      destruct e1 as [x|]; [inversion H; subst g'; exact G1|].
+      eapply IH; [exact G1| |exact H]. intros e' Hin. apply Hall. right; exact Hin.
+  Qed.
+
+  (* one undo step for an entry that records the state of f2 *)
+  Lemma undo_one_restores g rel s : Good g -> K (key rel) -> file_at f2 (key rel) = s ->
+    Good (undo_one g (rel, s))
+    /\ file_at (undo_one g (rel, s)) (key rel) = s
+    /\ forall q, q <> key rel -> file_at (undo_one g (rel, s)) q = file_at g q.
+  Proof.
+    intros G Hk Hs. unfold undo_one. cbn [fst snd]. destruct s as [b|].
+    - (* the file existed in f2: its ancestors were, and still are, directories *)
+      assert (L2 : lookup f2 (key rel) = Some (File b)).
+      { unfold file_at in Hs. destruct (lookup f2 (key rel)) as [[b'|]|]; try discriminate. inversion Hs; reflexivity. }
+      pose proof (sane2 _ _ L2) as D2.
+      assert (Hsafe : safe_parents (key rel)).
+      { intros r (suf & Ek & Hr & Hsuf) _. exact (dirs_ok_none_prefix f2 (key rel) [] D2 r suf Ek Hr Hsuf). }
+      destruct (mk_parent_dirs g (tgt_of rel)) as [g1 e1] eqn:Em.
+      pose proof (good_parents _ _ _ _ G Hsafe Em) as G1.
+      assert (Hfile1 : forall q, file_at g1 q = file_at g q).
+      { intros q. unfold mk_parent_dirs in Em. cbn [tgt_of t_nul t_base t_comps] in Em.
+        match type of Em with (if ?c then _ else _) = _ => destruct c end.
+        - inversion Em; reflexivity.
+        - eapply mkdir_all_file_at; exact Em. }
+      assert (Hd1 : dirs_ok g1 [] (key rel) = None).
+      { rewrite <- D2. apply dirs_ok_ext. intros pre suf Ek Hp Hsuf. cbn [app].
+        pose proof (dirs_ok_none_prefix f2 (key rel) [] D2 pre suf Ek Hp Hsuf) as LD. cbn [app] in LD.
+        rewrite LD. apply (g_mono _ G1). exact LD. }
+      assert (Hn1 : lookup g1 (key rel) <> Some Dir).
+      { intros Hd. pose proof (g_nodir _ G1 _ Hk Hd) as Hd2. rewrite L2 in Hd2. discriminate. }
+      assert (Ew : os_write g1 (tgt_of rel) b = Ok (set g1 (key rel) (File b))).
+      { unfold os_write, pre_err. cbn [tgt_of t_nul t_base t_comps t_trail t_path app].
+        change (real_segs rel) with (key rel). rewrite Hd1.
+        destruct (lookup g1 (key rel)) as [[b'|]|]; try reflexivity. exfalso. apply Hn1. reflexivity. }
+      rewrite Ew. pose proof (not_dir_ne_nil _ _ Hn1) as Hne. split; [apply good_set; assumption|]. split.
+      + apply file_at_set_same; exact Hne.
+      + intros q Hq. rewrite file_at_set_other by (intros Eq; apply Hq; symmetry; exact Eq). apply Hfile1.
+    - destruct (os_remove_file g (tgt_of rel)) as [g2|x] eqn:Er.
+      + destruct (os_remove_ok _ _ _ Er) as (E2 & b0 & Lk).
+        cbn [tgt_of t_path t_base t_comps app] in E2, Lk. change (real_segs rel) with (key rel) in E2, Lk.
+        assert (Hne : key rel <> []) by (intros E0; rewrite E0 in Lk; discriminate).
+        subst g2. split; [eapply good_unset; eassumption|]. split.
+        * apply file_at_unset_same; exact Hne.
+        * intros q Hq. apply file_at_unset_other. intros Eq; apply Hq; symmetry; exact Eq.
+      + split; [exact G|]. split; [|reflexivity].
+        unfold file_at. destruct (lookup g (key rel)) as [[b|]|] eqn:L; try reflexivity. exfalso.
+        unfold os_remove_file, pre_err in Er. cbn [tgt_of t_nul t_base t_comps t_trail t_path app] in Er.
+        change (real_segs rel) with (key rel) in Er. rewrite (g_sane _ G _ _ L), L in Er. discriminate.
+  Qed.
+
+  Lemma undo_all_view : forall u g, Good g ->
+    (forall x, In x u -> K (key (fst x)) /\ file_at f2 (key (fst x)) = snd x) ->
+    Good (undo_all g u)
+    /\ forall q v, file_at g q = v -> (forall x, In x u -> key (fst x) = q -> snd x = v) -> file_at (undo_all g u) q = v.
+  Proof.
+    induction u as [|x u IH]; intros g G Hall.
+    - split; [exact G|]. intros q v Hq _; exact Hq.
+    - destruct x as [rel s]. destruct (Hall _ (or_introl eq_refl)) as [Hk Hs]. cbn [fst snd] in Hk, Hs.
+      destruct (undo_one_restores g rel s G Hk Hs) as (G1 & Hv & Ho).
+      unfold undo_all. cbn [fold_left]. fold (undo_all (undo_one g (rel, s)) u).
+      destruct (IH _ G1 (fun y Hy => Hall y (or_intror Hy))) as [G' Hview]. split; [exact G'|].
+      intros q v Hq Hsame. apply Hview.
+      + destruct (path_dec q (key rel)) as [E|E].
+        * subst q. rewrite Hv. apply (Hsame (rel, s) (or_introl eq_refl) eq_refl).
+        * rewrite Ho by exact E. exact Hq.
+      + intros y Hy. apply Hsame. right; exact Hy.
+  Qed.
+
+  Lemma undo_all_covered : forall u g q, Good g ->
+    (forall x, In x u -> K (key (fst x)) /\ file_at f2 (key (fst x)) = snd x) ->
+    (exists x, In x u /\ key (fst x) = q) -> file_at (undo_all g u) q = file_at f2 q.
+  Proof.
+    induction u as [|y u IH]; intros g q G Hall (x & Hin & Hkx); [destruct Hin|].
+    destruct y as [rel s]. destruct (Hall _ (or_introl eq_refl)) as [Hk Hs]. cbn [fst snd] in Hk, Hs.
+    destruct (undo_one_restores g rel s G Hk Hs) as (G1 & Hv & Ho).
+    unfold undo_all. cbn [fold_left]. fold (undo_all (undo_one g (rel, s)) u).
+    pose proof (fun z Hz => Hall z (or_intror Hz)) as Hall'.
+    destruct (path_dec (key rel) q) as [E|E].
+    - destruct (undo_all_view u _ G1 Hall') as [_ Hview]. apply Hview.
+      + rewrite <- E, Hv. symmetry. exact Hs.
+      + intros z Hz Ekz. destruct (Hall' z Hz) as [_ Hsz]. rewrite Ekz in Hsz. symmetry. exact Hsz.
+    - destruct Hin as [Ex|Hin]; [subst x; cbn [fst] in Hkx; contradiction|].
+      apply IH; [exact G1|exact Hall'|exists x; split; assumption].
+  Qed.
+End Restore.
+
+(* ---------- BTreeMap facts ---------- *)
+Lemma bt_insert_in e l x : In x (bt_insert e l) -> x = e \/ In x l.
+Proof.
+  induction l as [|h r IH]; cbn [bt_insert]; [intros [->|[]]; left; reflexivity|].
+  destruct (str_eqb (fst e) (fst h)); [intros [->|H]; [left; reflexivity|right; right; exact H]|].
+  destruct (str_ltb (fst e) (fst h)); [intros [->|H]; [left; reflexivity|right; exact H]|].
+  intros [->|H]; [right; left; reflexivity|]. destruct (IH H) as [->|H']; [left; reflexivity|right; right; exact H'].
+Qed.
+
+Lemma bt_insert_cover e l :
+  In e (bt_insert e l) /\ forall y, In y l -> exists x, In x (bt_insert e l) /\ fst x = fst y.
+Proof.
+  induction l as [|h r [IHe IHl]]; cbn [bt_insert]; [split; [left; reflexivity|intros y []]|].
+  destruct (str_eqb (fst e) (fst h)) eqn:Eq.
+  - split; [left; reflexivity|]. intros y [->|Hy].
+    + exists e. split; [left; reflexivity|]. apply lN_eqb_spec. exact Eq.
+    + exists y. split; [right; exact Hy|reflexivity].
+  - destruct (str_ltb (fst e) (fst h)).
+    + split; [left; reflexivity|]. intros y Hy. exists y. split; [right; exact Hy|reflexivity].
+    + split; [right; exact IHe|]. intros y [->|Hy].
+      * exists y. split; [left; reflexivity|reflexivity].
+      * destruct (IHl y Hy) as (x & Hx & Ex). exists x. split; [right; exact Hx|exact Ex].
+Qed.
+
+Lemma btree_fold_in : forall l acc x, In x (fold_left (fun a e => bt_insert e a) l acc) -> In x l \/ In x acc.
+Proof.
+  induction l as [|e l IH]; intros acc x H; cbn [fold_left] in H; [right; exact H|].
+  destruct (IH _ _ H) as [H1|H1]; [left; right; exact H1|].
+  destruct (bt_insert_in _ _ _ H1) as [->|H2]; [left; left; reflexivity|right; exact H2].
+Qed.
+
+Lemma btree_fold_cover : forall l acc y, In y l \/ In y acc ->
+  exists x, In x (fold_left (fun a e => bt_insert e a) l acc) /\ fst x = fst y.
+Proof.
+  induction l as [|e l IH]; intros acc y H; cbn [fold_left].
+  - destruct H as [[]|H]. exists y. split; [exact H|reflexivity].
+  - destruct (bt_insert_cover e acc) as [He Hl]. destruct H as [[->|H]|H].
+    + apply IH. right; exact He.
+    + apply IH. left; exact H.
+    + destruct (Hl y H) as (x' & Hx' & Ex'). destruct (IH (bt_insert e acc) x' (or_intror Hx')) as (x & Hx & Ex).
+      exists x. split; [exact Hx|rewrite Ex; exact Ex'].
+Qed.
+
+Lemma map_res_cover {A B} (g : A -> res B) : forall l ys, map_res g l = Ok ys ->
+  forall x, In x l -> exists y, In y ys /\ g x = Ok y.
+Proof.
+  induction l as [|x0 l IH]; intros ys H x Hx; [destruct Hx|]. cbn [map_res] in H.
+  destruct (g x0) as [y0|e] eqn:E0; [|discriminate]. destruct (map_res g l) as [ys0|e]; [|discriminate].
+  inversion H; subst ys. destruct Hx as [->|Hx].
+  - exists y0. split; [left; reflexivity|exact E0].
+  - destruct (IH _ eq_refl _ Hx) as (y & Hy & Ey). exists y. split; [right; exact Hy|exact Ey].
+Qed.
+
+(* no recorded path lies strictly above a recorded file *)
+Lemma create_incompat f root raws ck : create f root raws = Ok ck -> sane f ->
+  forall e1 e2 b, In e1 ck -> In e2 ck -> snd e2 = Some b -> ~ strict_prefix (key (fst e1)) (key (fst e2)).
+Proof.
+  intros Hc Hs e1 e2 b H1 H2 Hb (suf & Ek & Hr & Hsuf).
+  destruct (create_entries _ _ _ _ Hc e2 H2) as [_ S2]. destruct (create_entries _ _ _ _ Hc e1 H1) as [_ S1].
+  destruct (save_one_spec _ _ _ S2) as [_ Sp2]. rewrite Hb in Sp2.
+  pose proof (read_ok_file _ _ _ Sp2) as F2. unfold file_at in F2.
+  destruct (lookup f (key (fst e2))) as [[b'|]|] eqn:L2; try discriminate.
+  pose proof (Hs _ _ L2) as D2. rewrite Ek in D2.
+  pose proof (dirs_ok_none_prefix f _ [] D2 (key (fst e1)) suf eq_refl Hr Hsuf) as LD. cbn [app] in LD.
+  pose proof (dirs_ok_prefix f _ [] suf D2 Hr) as D1.
+  unfold save_one in S1.
+  assert (Ex : os_exists f (tgt_of (fst e1)) = true).
+  { unfold os_exists, pre_err. cbn [tgt_of t_nul t_base t_comps t_trail t_path app].
+    change (real_segs (fst e1)) with (key (fst e1)). rewrite D1, LD. reflexivity. }
+  assert (Er : os_read f (tgt_of (fst e1)) = Err EISDIR).
+  { unfold os_read, pre_err. cbn [tgt_of t_nul t_base t_comps t_trail t_path app].
+    change (real_segs (fst e1)) with (key (fst e1)). rewrite D1, LD. reflexivity. }
+  rewrite Ex, Er in S1. discriminate.
+Qed.
+
+Lemma covered_dec (ck : list entry) q :
+  (exists e0, In e0 ck /\ key (fst e0) = q) \/ ~ (exists e0, In e0 ck /\ key (fst e0) = q).
+Proof.
+  induction ck as [|e r IH]; [right; intros (e0 & [] & _)|].
+  destruct (path_dec (key (fst e)) q) as [E|E]; [left; exists e; split; [left; reflexivity|exact E]|].
+  destruct IH as [(e0 & Hin & Ek)|Hn]; [left; exists e0; split; [right; exact Hin|exact Ek]|].
+  right. intros (e0 & [->|Hin] & Ek); [contradiction|]. apply Hn. exists e0. split; assumption.
+Qed.
+
+Theorem rewind_failure_restores f root raws ck f2 f3 e :
+  create f root raws = Ok ck -> sane f -> sane f2 -> rewind f2 ck = (f3, Some e) ->
+  forall q, file_at f3 q = file_at f2 q.
+Proof.
+  intros Hc Hs Hs2 Hr q. unfold rewind in Hr.
+  destruct (map_res (save_one f2) (map fst ck)) as [snap|x] eqn:Esnap; [|inversion Hr; reflexivity].
+  destruct (apply_all f2 ck) as [f1 er] eqn:Ea. destruct er as [x|]; [|inversion Hr]. inversion Hr; subst f3.
+  set (K := fun k : path => exists e0, In e0 ck /\ key (fst e0) = k).
+  assert (G1 : Good f2 K f1).
+  { eapply good_apply_all; [apply good_init; exact Hs2| |exact Ea].
+    intros e0 Hin. split; [exists e0; split; [exact Hin|reflexivity]|].
+    intros b Hb r Hsp (e1 & Hin1 & Ek1). exfalso. rewrite <- Ek1 in Hsp.
+    exact (create_incompat _ _ _ _ Hc Hs e1 e0 b Hin1 Hin Hb Hsp). }
+  assert (Hall : forall x0, In x0 (btree snap) -> K (key (fst x0)) /\ file_at f2 (key (fst x0)) = snd x0).
+  { intros x0 Hx0. destruct (btree_fold_in _ _ _ Hx0) as [Hin|[]].
+    destruct (map_res_in _ _ _ Esnap _ Hin) as (rel & Hrel & Sv).
+    destruct (save_one_spec _ _ _ Sv) as [Ef Sp]. rewrite Ef. split.
+    - apply in_map_iff in Hrel. destruct Hrel as (e0 & Ee0 & Hin0). exists e0. split; [exact Hin0|rewrite Ee0; reflexivity].
+    - destruct (snd x0) as [b|]; [apply read_ok_file; exact Sp|apply exists_false_no_file; assumption]. }
+  destruct (covered_dec ck q) as [Hk|Hk].
+  - apply (undo_all_covered f2 K Hs2 _ _ _ G1 Hall).
+    destruct Hk as (e0 & Hin0 & Ek0).
+    destruct (map_res_cover _ _ _ Esnap (fst e0) (in_map fst _ _ Hin0)) as (y & Hy & Sv).
+    destruct (save_one_spec _ _ _ Sv) as [Ef _].
+    destruct (btree_fold_cover snap [] y (or_introl Hy)) as (x0 & Hx0 & Ex0).
+    exists x0. split; [exact Hx0|]. rewrite Ex0, Ef. exact Ek0.
+  - destruct (undo_all_view f2 K Hs2 _ _ G1 Hall) as [G' _]. apply (g_out _ _ _ G'). exact Hk.
+Qed.
+
+Theorem rewind_failure_restores_b f root raws ck f2 f3 e :
+  create f root raws = Ok ck -> sane_b f = true -> sane_b f2 = true -> rewind f2 ck = (f3, Some e) ->
+  forall q, file_at f3 q = file_at f2 q.
+Proof. intros Hc Hs Hs2. apply (rewind_failure_restores f root raws ck f2 f3 e Hc (sane_b_sound _ Hs) (sane_b_sound _ Hs2)). Qed.
+
 (* the decidable form of the hypothesis, as evaluated by the correspondence on every observed workspace *)
 Theorem rewind_exact_b f root raws ck f2 f3 :
   create f root raws = Ok ck -> sane_b f2 = true -> rewind f2 ck = (f3, None) ->
@@ -413,3 +774,8 @@ Lemma ex_round_trip :
   create w_ws w_root [w_abs_in; w_dot_b] = Ok w_ck
   /\ sane_b w_later = true /\ rewind w_later w_ck = (w_ws, None).
 Proof. vm_compute. repeat split. Qed.
+
+Definition w_later_dir : fs := [([w_a], File (bs "two"%string)); ([w_b], Dir)].
+Lemma ex_failing_rewind :
+  sane_b w_later_dir = true /\ exists e, rewind w_later_dir w_ck = (w_later_dir, Some e).
+Proof. split; [vm_compute; reflexivity|]. exists EISDIR. vm_compute. reflexivity. Qed.
